@@ -99,6 +99,31 @@ Example C09_self_definition_is_usage_error :
   step_op selfdef_request s = Usage 211.
 Proof. vm_compute. repeat split; reflexivity. Qed.
 
+(* The clause "a step does not declare its own (indirect) creator again" of request_ok is needed:
+   K is detached together with its product C while both are RUNNING (their creator failed); C
+   declares K again with the identical specification.  The full recycle (Node.reattach) would make
+   the creator links cyclic, and Step._flag_checks_with_products (WITH RECURSIVE ... UNION ALL)
+   never terminates: the director hangs inside the transaction (finding C09-creatorcycle). *)
+Definition cycle_prefix : list op :=
+  [OpDeclareStatic root_key [[112]];
+   OpUpdateHashes CConfirmed [([112], Some 1)];
+   OpDefineStep root_key plan_label [[112]] [] [] [] NPlan;
+   OpDispatch plan_label;
+   OpResetForRerun plan_label;
+   OpDefineStep (KStep, plan_label) [75] [] [] [] [] NDefault;
+   OpDispatch [75];
+   OpResetForRerun [75];
+   OpDefineStep (KStep, [75]) [67] [] [] [] [] NDefault;
+   OpDispatch [67];
+   OpResetForRerun [67];
+   OpExecEnd plan_label [] CFailed [] false false].
+Definition cycle_request : op := OpDefineStep (KStep, [67]) [75] [] [] [] [] NDefault.
+Theorem C09_define_own_creator_refuted :
+  exists cap ops o, let s := run_ops ops (init_st cap) in
+    protocol_run_b (init_st cap) ops = true /\ inv_b s = true /\ request_ok_weak s o = true /\
+    step_op o s = Internal 126.
+Proof. exists 3, cycle_prefix, cycle_request. vm_compute. repeat split; reflexivity. Qed.
+
 (* the hypotheses are satisfiable by non-trivial instances *)
 Example C09_protocol_nonvacuous :
   protocol_run_b (init_st 3) (selfdef_prefix ++ [OpHold [65]; OpRelease [65]]) = true /\
